@@ -24,7 +24,7 @@ for d in seeded/*/; do
   git -C /repo checkout -- .
   case "$code" in
     exit=1) r="caught";;
-    exit=0) r="MISSED";;
+    exit=0) r="MISSED"; python3 -c "import json,sys;sys.exit(0 if json.load(open('$d/meta.json')).get('expected_missed') else 1)" && r="missed (expected: outside the technique's reach, see meta.json)";;
     *) r="inconclusive ($code)";;
   esac
   echo "| $id | $prop | $r | $viol |" >> $out
